@@ -51,7 +51,8 @@ def squash(
             if not squash(expr.expression.expressions, new_expr):
                 return None
         elif isinstance(expr, Choice):
-            squash(expr.expressions, new_expr)
+            if not squash(expr.expressions, new_expr):
+                return None
         elif isinstance(expr, OptimizedChoice):
             new_expr.update(*expr.choices)  # noqa: SLF001
         else:
